@@ -612,8 +612,14 @@ func init() {
 		}
 		in := lcw.BuildInput(ws)
 		if r.Chance(1, 4) {
-			in.Steps = append(in.Steps, step("add", "fresh", r.Pick(append(lcw.LayerNames(ws), "")), false))
-			if r.Chance(1, 2) {
+			base := r.Pick(append(lcw.LayerNames(ws), "", ""))
+			in.Steps = append(in.Steps, step("add", "fresh", base, false))
+			if r.Chance(1, 2) { // the user's only file sorts BEFORE (or after) everything add created
+				in.Steps = append(in.Steps, lcw.StepIn{Cmd: lcw.Cmd{Kind: "edit", A: in.Cfg.Layers + "/fresh/" + r.Pick([]string{
+					"NOTES", "AAA", "build/AAA", "build/root/.bash_history", "build/root/.aaa", "build/root/.profile", "build/zzz",
+					"zzz", "overlayfs/zzz"}), B: "user data\n"}})
+			}
+			if r.Chance(2, 3) {
 				in.Steps = append(in.Steps, step("remove", "fresh", "", false))
 			}
 		}
@@ -810,7 +816,24 @@ func init() {
 				ws.Foreign = append(ws.Foreign, lcw.Entry{Path: lcw.B(p), Kind: "l", Data: "/elsewhere"})
 			}
 		}
+		dangling := ""
+		if r.Chance(1, 4) { // an export link of the layer that points nowhere (its directory is gone)
+			dangling = pickLayer(r, ws).Name
+			ws.Foreign = append(ws.Foreign, lcw.Entry{Path: lcw.B(cfg.Exports + "/" + r.Pick([]string{"packages", "generated"}) + "/" + dangling),
+				Kind: "l", Data: lcw.B(cfg.Layers + "/" + dangling + "/" + r.Pick([]string{"gone", "packages.old"}))})
+		}
 		in := lcw.BuildInput(ws)
+		if dangling != "" {
+			if r.Chance(1, 2) {
+				in.Steps = append(in.Steps, step("mount", dangling, "", false), step("umount", "", "", true))
+			}
+			if r.Chance(1, 2) {
+				in.Steps = append(in.Steps, step("rename", dangling, "renamed", false))
+			} else {
+				in.Steps = append(in.Steps, step("remove", dangling, "", r.Chance(1, 2)))
+			}
+			return []lcw.Input{in}
+		}
 		for k := 1 + r.Intn(4); k > 0; k-- {
 			t := pickLayer(r, ws).Name
 			switch r.Intn(6) {
